@@ -405,6 +405,15 @@ fn op_expr(width: usize, text: &str) -> String {
   }
   let Some(b0) = body_of(&m0) else { return "perr".to_string() };
   let t0 = dump_expr(&heap, b0);
+  // the stand-alone expression entry point of the parser must build the same tree
+  {
+    let mut errors = ErrorSet::new();
+    let (_, e) = samlang_parser::parse_source_expression_from_text(text, ModuleReference::DUMMY, &mut heap, &mut errors);
+    let te = dump_expr(&heap, &e);
+    if errors.has_errors() || te != t0 {
+      return format!("{};{};entry-point-differs:{}", t0, hex(b"parse_source_expression_from_text"), te.replace(';', ","));
+    }
+  }
   let etext = samlang_printer::pretty_print_expression(&heap, width, &m0.comment_store, b0);
   let printed = samlang_printer::pretty_print_source_module(&heap, width, &m0);
   let t1 = match parse(&mut heap, &printed) {
@@ -456,6 +465,69 @@ fn op_pattern(width: usize, text: &str) -> String {
   format!("{};{};{}", t0, hex(ptext.as_bytes()), t1)
 }
 
+/// the other public entry points of the printer (used by the language server): each toplevel,
+/// import and member return-type annotation printed on its own must re-parse to itself.
+fn entry_points(heap: &mut Heap, width: usize, m0: &Module<()>) -> Option<String> {
+  for t in &m0.toplevels {
+    let text = samlang_printer::pretty_print_toplevel(&*heap, width, &m0.comment_store, t);
+    let mut d0 = Dumper { heap: &*heap, out: String::new() };
+    d0.toplevel(t);
+    let want = d0.out;
+    let got = match parse(heap, &text) {
+      Ok(m) if m.toplevels.len() == 1 => {
+        let mut d = Dumper { heap: &*heap, out: String::new() };
+        d.toplevel(&m.toplevels[0]);
+        d.out
+      }
+      _ => "rerr".to_string(),
+    };
+    if got != want {
+      return Some(format!("diff:{}:{}:{}", hex(want.as_bytes()), hex(got.as_bytes()), hex(format!("pretty_print_toplevel: {text}").as_bytes())));
+    }
+    let annots: Vec<annotation::T> = t.members_iter().map(|m| m.return_type.clone()).collect();
+    for a in annots.iter().take(3) {
+      let text = samlang_printer::pretty_print_annotation(&*heap, width, &m0.comment_store, a);
+      let mut d0 = Dumper { heap: &*heap, out: String::new() };
+      d0.annot(a);
+      let want = d0.out;
+      let src = format!("class Zz {{ function zz(): {text} = 1 }}");
+      let got = match parse(heap, &src) {
+        Ok(m) => match m.toplevels.first().and_then(|t| t.members_iter().next().map(|m| m.return_type.clone())) {
+          Some(a1) => {
+            let mut d = Dumper { heap: &*heap, out: String::new() };
+            d.annot(&a1);
+            d.out
+          }
+          None => "rerr".to_string(),
+        },
+        Err(_) => "rerr".to_string(),
+      };
+      // a generic `T` of the enclosing declaration is a class id when printed on its own
+      if got != want && got.replace("(tid ", "(tgen ") != want.replace("(tid ", "(tgen ") {
+        return Some(format!("diff:{}:{}:{}", hex(want.as_bytes()), hex(got.as_bytes()), hex(format!("pretty_print_annotation: {text}").as_bytes())));
+      }
+    }
+  }
+  for i in &m0.imports {
+    let text = samlang_printer::pretty_print_import(&*heap, width, &m0.comment_store, i);
+    let mut names: Vec<String> = i.imported_members.iter().map(|x| x.name.as_str(&*heap).to_string()).collect();
+    names.sort();
+    let want = format!("{} {}", i.imported_module.pretty_print(&*heap), names.join(" "));
+    let got = match parse(heap, &text) {
+      Ok(m) if m.imports.len() == 1 => {
+        let mut n: Vec<String> = m.imports[0].imported_members.iter().map(|x| x.name.as_str(&*heap).to_string()).collect();
+        n.sort();
+        format!("{} {}", m.imports[0].imported_module.pretty_print(&*heap), n.join(" "))
+      }
+      _ => "rerr".to_string(),
+    };
+    if got != want {
+      return Some(format!("diff:{}:{}:{}", hex(want.as_bytes()), hex(got.as_bytes()), hex(format!("pretty_print_import: {text}").as_bytes())));
+    }
+  }
+  None
+}
+
 fn op_module(width: usize, text: &str) -> String {
   let mut heap = Heap::new();
   let m0 = match parse(&mut heap, text) {
@@ -469,6 +541,9 @@ fn op_module(width: usize, text: &str) -> String {
     Ok(m1) => {
       let t1 = dump_module(&heap, &m1);
       if t0 == t1 {
+        if let Some(d) = entry_points(&mut heap, width, &m0) {
+          return d;
+        }
         format!("ok {}", m0.toplevels.len())
       } else {
         format!("diff:{}:{}:{}", hex(t0.as_bytes()), hex(t1.as_bytes()), hex(printed.as_bytes()))
@@ -485,6 +560,14 @@ fn main() {
       "E" | "S" if t.len() == 3 => op_expr(t[1].parse().unwrap_or(100), &unhex_str(t[2])),
       "P" if t.len() == 3 => op_pattern(t[1].parse().unwrap_or(100), &unhex_str(t[2])),
       "M" if t.len() == 3 => op_module(t[1].parse().unwrap_or(100), &unhex_str(t[2])),
+      "W" if t.len() == 3 => {
+        // the formatted module text at the given width (or `perr`)
+        let mut heap = Heap::new();
+        match parse(&mut heap, &unhex_str(t[2])) {
+          Ok(m) => hex(samlang_printer::pretty_print_source_module(&heap, t[1].parse().unwrap_or(100), &m).as_bytes()),
+          Err(_) => "perr".to_string(),
+        }
+      }
       "F" if t.len() == 2 => {
         // what `samlang format` must write: pretty_print_source_module at width 100 (or `perr`)
         let mut heap = Heap::new();
